@@ -30,6 +30,7 @@ Inductive lev :=
 | EvInj (p : point) (o : outc)
 | EvNotify (e : ecls)
 | EvWedge
+| EvStFail                             (* the store write of the UpdateStatus(StatusRunning) just seen failed *)
 | EvPhase (p : phase).
 
 Record lcfg := mkLcfg {
@@ -319,7 +320,7 @@ Definition mon10_step (cf : lcfg) (cur : status) (s : m10) (e : lev) : m10 :=
                   end in
       mkM10 (a_open s) (a_ustart s) (a_fatal s) (a_trans s) (a_kind s) (a_hist s) (a_ended s) (a_stopcall s)
             (a_forcecall s) (a_shutcall s) (a_ustop s) (a_shut s) (a_calls s) atts lr (a_v s)
-  | EvNotify _ | EvWedge | EvPhase _ => s
+  | EvNotify _ | EvWedge | EvStFail | EvPhase _ => s
   end.
 
 (* every event together with the status stored before it *)
@@ -346,13 +347,16 @@ Record m11 := mkM11 {
   b_act : nat;                         (* number of status writes and Start calls / returns so far *)
   b_startfl : bool;                    (* a Start call is in flight *)
   b_wq : list (nat * nat);             (* waits issued while everything was quiet: call id -> b_act when issued *)
+  b_stfail : bool;                     (* the Running write of the run now coming up failed in the store: the engine is
+                                          winding that run down by itself, a Stop has nothing to act on (the in-memory
+                                          status says Running only because pipeline.Service sets it before the write) *)
   b_v : N }.
 
-Definition b0 : m11 := mkM11 false 0 UserStopped [] None [] false 0 false [] 0.
+Definition b0 : m11 := mkM11 false 0 UserStopped [] None [] false 0 false [] false 0.
 
 Definition b_flag (c : bool) (b : N) (s : m11) : m11 :=
   if c then mkM11 (b_open s) (b_seq s) (b_status s) (b_lastend s) (b_pend s) (b_calls s) (b_restart s)
-                  (b_act s) (b_startfl s) (b_wq s) (N.lor (b_v s) b) else s.
+                  (b_act s) (b_startfl s) (b_wq s) (b_stfail s) (N.lor (b_v s) b) else s.
 
 Fixpoint lookup_c (id : nat) (l : list (nat * (bool * bool * nat))) : bool * bool * nat :=
   match l with [] => (false, false, 0%nat) | (j, x) :: t => if Nat.eqb j id then x else lookup_c id t end.
@@ -376,10 +380,10 @@ Definition mon11_step (s : m11) (e : lev) : m11 :=
   | EvOpen _ KSrc =>
       let s1 := b_flag (b_open s) Q_two_live s in
       mkM11 true (S (b_seq s1)) (b_status s1) (b_lastend s1) (b_pend s1) (b_calls s1) (b_restart s1)
-            (b_act s1) (b_startfl s1) (b_wq s1) (b_v s1)
+            (b_act s1) (b_startfl s1) (b_wq s1) (b_stfail s1) (b_v s1)
   | EvTd _ KSrc =>
       mkM11 false (b_seq s) (b_status s) (b_lastend s) (Some (b_seq s)) (b_calls s) (b_restart s)
-            (b_act s) (b_startfl s) (b_wq s) (b_v s)
+            (b_act s) (b_startfl s) (b_wq s) false (b_v s)
   | EvSt _ x =>
       let closing := negb (status_eqb x Running) in
       let s1 := b_flag (closing && b_open s) Q_status_live s in
@@ -388,7 +392,10 @@ Definition mon11_step (s : m11) (e : lev) : m11 :=
                   | None => b_lastend s1
                   end in
       mkM11 (b_open s1) (b_seq s1) x ends (if closing then None else b_pend s1) (b_calls s1) (b_restart s1)
-            (S (b_act s1)) (b_startfl s1) (b_wq s1) (b_v s1)
+            (S (b_act s1)) (b_startfl s1) (b_wq s1) (closing && b_stfail s1) (b_v s1)
+  | EvStFail =>
+      mkM11 (b_open s) (b_seq s) (b_status s) (b_lastend s) (b_pend s) (b_calls s) (b_restart s)
+            (b_act s) (b_startfl s) (b_wq s) true (b_v s)
   | EvCall k id =>
       let isstart := kind_eqb k KStart in
       let quiet := negb (b_open s) && stopped_status (b_status s) && negb (b_startfl s)
@@ -396,7 +403,7 @@ Definition mon11_step (s : m11) (e : lev) : m11 :=
       mkM11 (b_open s) (b_seq s) (b_status s) (b_lastend s) (b_pend s)
             ((id, (b_open s, status_eqb (b_status s) Running, b_seq s)) :: b_calls s) (b_restart s)
             (if isstart then S (b_act s) else b_act s) (b_startfl s || isstart)
-            (if kind_eqb k KWait && quiet then (id, b_act s) :: b_wq s else b_wq s) (b_v s)
+            (if kind_eqb k KWait && quiet then (id, b_act s) :: b_wq s else b_wq s) (b_stfail s) (b_v s)
   | EvRet k id e =>
       let '(wasopen, wasrunning, seq) := lookup_c id (b_calls s) in
       let same_live := wasopen && wasrunning && b_open s && Nat.eqb (b_seq s) seq in
@@ -421,17 +428,17 @@ Definition mon11_step (s : m11) (e : lev) : m11 :=
             end in
           b_flag stale Q_wait_stale s2
       | KStop | KStopWait | KForce =>
-          b_flag (same_live && ecls_eqb e CNotRunning) Q_stop_nothing s
+          b_flag (same_live && ecls_eqb e CNotRunning && negb (b_stfail s)) Q_stop_nothing s
       | KStart =>
           let s1 := b_flag (b_restart s && negb (is_nil e)) Q_restart_refused s in
           mkM11 (b_open s1) (b_seq s1) (b_status s1) (b_lastend s1) (b_pend s1) (b_calls s1) (b_restart s1)
-                (S (b_act s1)) false (b_wq s1) (b_v s1)
+                (S (b_act s1)) false (b_wq s1) (b_stfail s1) (b_v s1)
       | KStopAll => s
       end
   | EvPhase PhFinal =>
       b_flag (negb (if b_open s then status_eqb (b_status s) Running else stopped_status (b_status s))) Q_final s
   | EvPhase PhRestart => mkM11 (b_open s) (b_seq s) (b_status s) (b_lastend s) (b_pend s) (b_calls s) true
-                               (b_act s) (b_startfl s) (b_wq s) (b_v s)
+                               (b_act s) (b_startfl s) (b_wq s) (b_stfail s) (b_v s)
   | EvPhase PhEnd => b_flag (b_open s || negb (stopped_status (b_status s))) Q_final s
   | EvWedge => b_flag true Q_wedge s
   | _ => s
